@@ -13,6 +13,8 @@ Model-free oracles on the implementation (see design/C11.md):
             has it in reach ends there
   padding   real snapshots of [a, F] and [b, F] (|a| != |b| mod 4): F starts aligned in both, its chunks are shared
   repo_key  the same file snapshotted into two encrypted repositories (independent keys): boundaries differ
+  handover  streams handed to the adapter as ONE block larger than twice every size constant (>= 1 MiB, read with ast) of
+            adapters.py / repository.py, and as many blocks: identical outside the tail zone; the pair / edit oracles on them
   history   ONE adapter object chunks several (stream, key) jobs - sequentially in permuted order or with interleaved
             generators, directly or through RepositoryProps.chunkify with the private part replaced: every job is cut
             as by a brand-new adapter (and as by the model); different keys still give different boundaries
@@ -204,6 +206,77 @@ def gen_large(rng, tier_big):
         L = 4 * rng.randint(1, mx) if kind != 'alter' else rng.randint(1, 3 * mx)
         case.update(n=pre + L + tail, at=pre, len=L, eseed=rng.getrandbits(32))
     return case
+
+
+# --------------------------------------------------------------------------- hand-overs larger than any size constant of the source
+HUGE_CAP = 64 << 20          # constants above this (e.g. a benchmark size) are reported, not exceeded
+HUGE_DEFAULT = 40 << 20
+
+
+def _const_int(node):
+    import ast
+    if isinstance(node, ast.Constant) and type(node.value) is int:
+        return node.value
+    if isinstance(node, ast.BinOp) and isinstance(node.op, (ast.LShift, ast.Mult, ast.Pow, ast.Add)):
+        a, b = _const_int(node.left), _const_int(node.right)
+        if a is None or b is None or abs(a) > 1 << 40 or abs(b) > 1 << 40:
+            return None
+        if isinstance(node.op, ast.LShift):
+            return a << b if 0 <= b <= 64 else None
+        if isinstance(node.op, ast.Pow):
+            return a ** b if 0 <= b <= 64 and abs(a) <= 1 << 16 else None
+        return a * b if isinstance(node.op, ast.Mult) else a + b
+    return None
+
+
+def source_size_constants():
+    """Integer constants >= 1 MiB written in the adapter / repository sources (block sizes, feed lengths, ...)."""
+    import ast
+    out = {}
+    for rel in ('replicat/utils/adapters.py', 'replicat/repository.py'):
+        try:
+            tree = ast.parse((core.REPO / rel).read_text())
+        except (OSError, SyntaxError):
+            continue
+        for node in ast.walk(tree):
+            v = _const_int(node)
+            if v is not None and v >= 1 << 20:
+                out.setdefault(v, rel)
+    return out
+
+
+def huge_block_length(rng, consts):
+    usable = [v for v in consts if v <= HUGE_CAP]
+    base = 2 * max(usable) + (1 << 20) if usable else HUGE_DEFAULT      # crosses every multiple of the constant at least twice
+    return base + rng.randrange(1, 4096)
+
+
+def gen_huge(rng, consts, kind, big_max=False):
+    """Oracle-only case whose streams are handed to the adapter as ONE block larger than every size constant of the
+    source, and again as many blocks; chunk parameters large enough to keep it fast."""
+    mx = rng.choice([65536, 98304, 131072] if not big_max else [262144, 1048576, 1048576 + 2])
+    mn = rng.choice([1, 4096, mx // 16])
+    n = huge_block_length(rng, consts)
+    case = {'kind': kind, 'key': good_key(rng).hex(), 'mn': mn, 'mx': mx, 'dseed': rng.getrandbits(32), 'dkind': 'random',
+            'segseed': rng.getrandbits(32), 'model': False, 'whole': True, 'handover': True}
+    if kind == 'pair':
+        case.update(n=n, p1=[rng.getrandbits(32), 4 * rng.randint(0, mx // 8)], p2=[rng.getrandbits(32), 4 * rng.randint(0, mx // 8)])
+    else:
+        L = 4 * rng.randint(1, 64) if kind != 'alter' else rng.randint(1, 200)
+        case.update(n=n, at=rng.randint(0, 4 * mx), len=L, eseed=rng.getrandbits(32))
+    return case
+
+
+def block_split(seed, data, mx):
+    """Many-block hand-over of a long stream: block lengths from 1 byte to a few max_length, some around 1-2 MiB."""
+    r = random.Random(seed)
+    out, p = [], 0
+    while p < len(data):
+        k = r.random()
+        step = r.randint(1, 4 * mx) if k < 0.7 else (r.randint(1 << 20, 2 << 20) if k < 0.9 else r.choice([1, 3, mx, mx + 1, 2 * mx]))
+        out.append(data[p:p + step])
+        p += step
+    return out
 
 
 # --------------------------------------------------------------------------- oracles on one case
@@ -500,7 +573,7 @@ RULE = ('cases drawn from one PRNG: (a) model-sized (<= ~620 bytes, max <= 64; d
         'pairs prefix1+S, prefix2+S with prefix lengths multiples of 4, unaligned negative controls, insert / delete (multiples of 4 bytes at any '
         'offset) / alter edits, key pairs - each stream chunked by the real adapter over the recompiled C++ under a random segmentation AND by the '
         'Gallina model (vm_compute); (b) oracle-only high-entropy streams of (256 + 2..6)*max bytes, max 64..256 (thorough: ..1024, some max not '
-        'multiples of 4), min <= max/16, same kinds, key pairs independent / k0 only / k1 with differing top bit; (c) sessions: one adapter object used for 2-5 (stream, key) jobs, sequential / interleaved, adapter / RepositoryProps.chunkify; (d) real snapshots [a,F], [b,F] in one repository, and one file in two encrypted repositories; '
+        'multiples of 4), min <= max/16, same kinds, key pairs independent / k0 only / k1 with differing top bit; (c) streams of > 2x the largest size constant of the source (else 40 MiB) handed over as ONE block and as many blocks, max 64..128 KiB, pairs and edits near the start; (d) sessions: one adapter object used for 2-5 (stream, key) jobs, sequential / interleaved, adapter / RepositoryProps.chunkify; (e) real snapshots [a,F], [b,F] in one repository, and one file in two encrypted repositories; '
         'non-trivial = a common boundary outside the tail zone followed by >= 2 shared chunks (pairs, edits), >= 40 chunks (keys), '
         '>= 1 verified dominant position; distinct = distinct case descriptions')
 
@@ -520,6 +593,19 @@ def check_cases(cases, rep: Report, with_model=True, stats=None):
         p1, c1 = impl_run(case, X1, 1)
         p2, c2 = impl_run(case, X2, 2)
         problems, st = evaluate(case, c1, c2)
+        if case.get('handover'):
+            # the same stream handed over as ONE block and as many blocks: identical chunks outside the tail zone
+            key_b = bytes.fromhex(case['key']) or None
+            cb = c10.impl_chunks(key_b, case['mn'], case['mx'], block_split(case['segseed'] + 7, X1, case['mx']), None)
+            h1, hb = c10.head_part(c1, len(X1), case['mx']), c10.head_part(cb, len(X1), case['mx'])
+            stats['handover_bytes'] = stats.get('handover_bytes', 0) + len(X1) + len(X2)
+            stats['handover_largest_block'] = max(stats.get('handover_largest_block', 0), len(X1), len(X2))
+            if h1 != hb or b''.join(cb) != X1:
+                d = next((k for k in range(min(len(h1), len(hb))) if h1[k] != hb[k]), min(len(h1), len(hb)))
+                problems.append((f'a stream of {len(X1)} bytes (min {case["mn"]}, max {case["mx"]}) handed to the adapter as ONE block and as '
+                                 f'{len(block_split(case["segseed"] + 7, X1, case["mx"]))} blocks is cut differently outside the tail zone: chunk {d} starts at offset '
+                                 f'{sum(h1[:d])}, length {h1[d] if d < len(h1) else None} vs {hb[d] if d < len(hb) else None} '
+                                 f'({len(X1) - sum(h1[:d])} bytes remain)', 'handover'))
         dom_verified = 0
         if case.get('model') or case.get('dom'):
             for X, ch, which in ((X1, c1, 1), (X2, c2, 2)):
@@ -537,7 +623,7 @@ def check_cases(cases, rep: Report, with_model=True, stats=None):
         else:
             nontrivial = st.get('post_shared', 0) >= 2 or dom_verified >= 1
         rep.case(case, nontrivial=nontrivial)
-        rep.count(('small:' if case.get('model') else 'large:') + case['kind'])
+        rep.count(('small:' if case.get('model') else ('huge:' if case.get('handover') else 'large:')) + case['kind'])
         rep.count('data:' + case['dkind'])
         rep.count(f'mx%4={case["mx"] % 4}')
         stats['shared_chunks'] = stats.get('shared_chunks', 0) + st.get('post_shared', 0) + st.get('pre_shared', 0)
@@ -737,6 +823,8 @@ def finish(rep: Report, stats):
         'identical_chunks_across_snapshot_pairs': stats.get('snapshot_shared_chunks', 0),
         'dominant_position_chunk_pairs_verified': stats.get('dominant_pairs_verified', 0),
         'streams_chunked_on_reused_adapter_objects': stats.get('session_streams', 0),
+        'bytes_in_one_block_handovers': stats.get('handover_bytes', 0),
+        'largest_single_block_handed_over': stats.get('handover_largest_block', 0),
         'streams_chunked_on_reused_adapter_objects': stats.get('session_streams', 0),
     }
 
@@ -757,7 +845,14 @@ def run(ctx) -> Report:
             c['n'] = c['at'] + c['len'] + 30 * c['mx']
         c['dom'] = True
         mid.append(c)
-    check_cases(small + large + mid, rep, with_model=True, stats=stats)
+    consts = source_size_constants()
+    huge = [gen_huge(rng, consts, k) for k in (['pair', 'alter', 'insert'] if ctx.tier == 'quick' else ['pair', 'alter', 'insert', 'delete'] * 3)]
+    if ctx.tier == 'thorough':
+        huge += [gen_huge(rng, consts, k, big_max=True) for k in ('pair', 'alter', 'insert', 'delete')]
+    rep.notes.append('size constants >= 1 MiB read from adapters.py / repository.py: '
+                     + (', '.join(f'{v} ({f})' for v, f in sorted(consts.items())) or 'none')
+                     + f'; one-block hand-overs of {huge[0]["n"]} bytes and more exceed twice the largest one below {HUGE_CAP}')
+    check_cases(small + large + mid + huge, rep, with_model=True, stats=stats)
     sessions = [gen_session(rng, True) for _ in range(ctx.scale(50, 700))] + [gen_session(rng, False) for _ in range(ctx.scale(30, 500))]
     check_sessions(sessions, rep, with_model=True, stats=stats)
     hash_correspondence(rng, rep, nkeyf=ctx.scale(100, 400), ndom=ctx.scale(4, 12))
@@ -787,6 +882,8 @@ def search(ctx, broken) -> Report:
         c = gen_small(rng)
         cases.append(c)
     cases += [gen_large(rng, False) for _ in range(150)]
+    consts = source_size_constants()
+    cases += [gen_huge(rng, consts, k) for k in ('pair', 'alter', 'insert', 'delete')]
     check_cases(cases, rep, with_model=False, stats=stats)
     run_snapshots(ctx, rep, 6, stats)
     finish(rep, stats)
